@@ -798,6 +798,29 @@ func (env *Env) call(e *Expr) Value {
 				return Value{T: mathInt, Tm: SlOff(v.Tm)}
 			}
 			return Value{T: mathInt, Tm: StrOff(v.Tm)}
+		case "arr":
+			v := env.eval(args[0])
+			if isString(v.T) {
+				return Value{T: nil, Tm: StrArr(v.Tm)}
+			}
+			el := elemOf(v.T)
+			name, sort := eng.memName(el)
+			return Value{T: nil, Tm: Select(env.st.heapGet(name, sort), SlRef(v.Tm))}
+		case "at":
+			// at(s, p): the element at ABSOLUTE position p of the backing array of s
+			v := env.eval(args[0])
+			pp := env.evalInt(args[1])
+			if isString(v.T) {
+				return Value{T: mathInt, Tm: Select(StrArr(v.Tm), pp)}
+			}
+			el := elemOf(v.T)
+			name, sort := eng.memName(el)
+			m := env.st.heapGet(name, sort)
+			r := Value{T: el, Tm: Select(Select(m, SlRef(v.Tm)), pp)}
+			if isInteger(el) {
+				r.T = mathInt
+			}
+			return r
 		case "key":
 			v := env.eval(args[0])
 			if env.inQuant > 0 {
